@@ -354,5 +354,16 @@ theorem running_src_code (v : SrcRdh.RdhCruRunningChecker) (c : SrcRdh.RdhCru) (
     ∃ rest, (SrcRdh.RdhCruRunningChecker.check v c).1.errStr.codes = 11 :: rest :=
   (SrcTie.running_check_eq v c hw).2.2.2 h
 
+
+/-- **which validator a command line gets** (`RdhCruSanityValidator::new_from_config`, translated with the configuration object
+    abstracted to the three things it is asked: are custom checks enabled, the configured `rdh_version`, the target system):
+    the header id is pre-set exactly when custom checks are enabled and configure one, the ITS system-id rule is active exactly
+    when a target system is given — independently of each other. Together with `sanity_src_iff` this is the documented rule list
+    "relative to the first header version seen [or the configured one], plus the ITS system ID when an ITS target is selected". -/
+theorem validator_for_config_src (cfg : SrcRdh.CfgAbs) :
+    SrcRdh.RdhCruSanityValidator.new_from_config cfg =
+      SrcTie.mkValidator (if cfg.customEnabled then cfg.rdhVersion else none) (if cfg.target.isSome then some 32 else none) :=
+  SrcTie.new_from_config_eq cfg
+
 end C10
 end FastPasta
